@@ -812,6 +812,55 @@ func roundTripSigned(c *mon.Case, b *built) bool {
 			}
 		}
 	}
+	// crossed use: the verifiers that take the content from the caller, offered an ATTACHED message together with another
+	// content, must not report success - whether they refuse the crossed use or check the content they were given
+	if !s.detached && !s.digestOnly && len(b.content) > 0 {
+		for _, how := range []string{"flip", "extend", "empty"} {
+			bad := append([]byte{}, b.content...)
+			switch how {
+			case "flip":
+				bad[c.R.Intn(len(bad))] ^= 1 << uint(c.R.Intn(8))
+			case "extend":
+				bad = append(bad, 0)
+			case "empty":
+				bad = nil
+			}
+			var e2 error
+			what := "pkcs7.Parse, Content = the caller's, " + s.vpath + " verification"
+			var pi *mon.PanicInfo
+			if s.api == "cfca" {
+				what = "cfca.VerifyMessageDetach"
+				pi = mon.Try(func() { e2 = cfca.VerifyMessageDetach(b.der, bad) })
+			} else {
+				pi = mon.Try(func() {
+					p2, e := pkcs7.Parse(b.der)
+					if e != nil {
+						e2 = e
+						return
+					}
+					p2.Content = bad
+					e2 = b.verifyParsed(p2)
+				})
+			}
+			c.Event("attached/crossed_verifier_with_other_content_tried", 1)
+			if pi != nil {
+				c.Fail("panic", "%s on an attached message with %s content panics: %v", what, how, pi.Value)
+			} else if e2 == nil {
+				c.Fail("accept", "%s reports success for an attached message and a different (%s) content supplied by the caller; message: %v", what, how, b.spec)
+			}
+		}
+	}
+	// ... and the verifier that expects the content inside, offered a DETACHED message, has nothing that was signed
+	if s.detached && !s.digestOnly && s.api == "cfca" && len(b.content) > 0 {
+		var e2 error
+		pi := mon.Try(func() { e2 = cfca.VerifyMessageAttach(b.der) })
+		c.Event("detached/crossed_attached_verifier_tried", 1)
+		if pi != nil {
+			c.Fail("panic", "cfca.VerifyMessageAttach on a detached message panics: %v", pi.Value)
+		} else if e2 == nil {
+			c.Fail("accept", "cfca.VerifyMessageAttach reports success for a detached message (no content inside; %d bytes were signed); message: %v", len(b.content), b.spec)
+		}
+	}
 	return true
 }
 
